@@ -174,10 +174,19 @@ def _compare(db, chk, m):
         def cell(lab, c):
             i = 0 if lab == "CTL" else 1
             return ("fillna", ("nullable", ("c1col", R.base, i, parts[lab][c])), T.C(0))
+        count_cells = {cell(lab, "counts") for lab in ("CTL", "TST")}
+
+        def nocast(t):
+            """law: astype(int64) is the identity on a NaN-free column of event counts"""
+            if isinstance(t, tuple):
+                if len(t) == 3 and t[0] == "astype" and t[1] in (T.C("int64"), T.C("int"), T.C("Int64")) and t[2] in count_cells:
+                    return t[2]
+                return tuple(nocast(x) for x in t)
+            return t
         for lab in ("CTL", "TST"):
             for c in ("counts", "total_duration"):
-                check_term(chk, rule, f"{tag} column {lab}_{c} = that trace's {c} summed per {key}, 0 when the name is absent", where, R.col(f"{lab}_{c}"), [cell(lab, c)])
-        check_term(chk, rule, f"{tag} diff_counts = test - control", where, R.col("diff_counts"), [T.sub(cell("TST", "counts"), cell("CTL", "counts"))], "control - test flips every sign")
+                check_term(chk, rule, f"{tag} column {lab}_{c} = that trace's {c} summed per {key}, 0 when the name is absent", where, T.renorm(nocast(R.col(f"{lab}_{c}"))), [cell(lab, c)])
+        check_term(chk, rule, f"{tag} diff_counts = test - control", where, T.renorm(nocast(R.col("diff_counts"))), [T.sub(cell("TST", "counts"), cell("CTL", "counts"))], "control - test flips every sign")
         check_term(chk, rule, f"{tag} diff_duration = test - control", where, R.col("diff_duration"), [T.sub(cell("TST", "total_duration"), cell("CTL", "total_duration"))])
     chk.floor(rule, 14)
 
@@ -266,8 +275,8 @@ def _classes(db, chk, m):
         for c, t_ in cases:
             def leaf(x, c=c, t_=t_):
                 y = x
-                while isinstance(y, tuple) and y and y[0] in ("fillna", "nullable"):
-                    y = y[1]
+                while isinstance(y, tuple) and y and (y[0] in ("fillna", "nullable") or (y[0] == "astype" and y[1] in (T.C("int64"), T.C("int"), T.C("Int64")))):
+                    y = y[2] if y[0] == "astype" else y[1]          # an int64 cast is the identity on the integer counts the leaf stands for
                 if isinstance(y, tuple) and y and y[0] == "c1col" and "counts" in T.show(y[3]):
                     return c if y[2] == 0 else t_
                 raise T.Unknown(x)
